@@ -252,7 +252,8 @@ def replay(sub, case):
 # inside are read like any others.
 
 CONTAINER_VARS = ["x", "y", "z", "<state>r", "<p>s", "<dt>", "<t>"]
-CONTAINER_PLACES = ["rhs", "rhs_scaled", "rhs_subscripted", "call_arg", "call_kwarg", "yield_expr", "nested"]
+CONTAINER_PLACES = ["rhs", "rhs_scaled", "rhs_subscripted", "call_arg", "call_kwarg", "yield_expr", "nested",
+                    "raw_zero_product", "raw_zero_quotient", "raw_nested_sum"]
 
 
 def container_cases():
@@ -301,6 +302,18 @@ def check_container(case):
         stmt = lang.YieldState(id="s", time=var("<t>"), time_id="final", expression=arr, component_id="y",
                                condition=cond, depends_on=[])
         inside.add("<t>")
+    elif place.startswith("raw"):
+        # statements made by hand (not through the builder), with right-hand sides that are not in the builder's
+        # flattened normal form: terms annihilated by a literal zero, sums directly inside sums
+        import pymbolic.primitives as prim
+        e0, e1 = exprs[0], exprs[-1]
+        if place == "raw_zero_product":
+            rhs = prim.Sum((prim.Product((0, e0)), e1))
+        elif place == "raw_zero_quotient":
+            rhs = prim.Sum((prim.Quotient(0, prim.Sum((e0, 5))), e1))
+        else:
+            rhs = prim.Sum((prim.Sum((e0, var("y"))), prim.Product((1, e1))))
+        stmt = lang.Assign(id="s", assignee="out", assignee_subscript=(), expression=rhs, condition=cond, depends_on=[])
     else:
         outer = np.empty(2, dtype=object)
         outer[0] = var("y") + 1
@@ -312,6 +325,21 @@ def check_container(case):
     phase = lang.ExecutionPhase(name="main", next_phase="main", statements=[stmt])
     dag = lang.DAGCode({"main": phase}, "main")
     problems = []
+    # the sets are unchanged by mapping the statement's expressions with the identity
+    from pymbolic.mapper import IdentityMapper
+    for label, mapper in (("lambda e: e", lambda e: e), ("IdentityMapper()", IdentityMapper())):
+        try:
+            s2 = stmt.map_expressions(mapper)
+        except Exception as e:
+            if isinstance(mapper, IdentityMapper) and place in ("rhs", "rhs_scaled", "call_arg", "call_kwarg", "yield_expr", "nested"):
+                continue        # pymbolic's IdentityMapper has no rule for object arrays; the plain function must work
+            problems.append("map_expressions(%s) raised %s on '%s': %s" % (label, type(e).__name__, stmt, str(e)[:80]))
+            continue
+        if (s2.get_read_variables() != stmt.get_read_variables()
+                or s2.get_written_variables() != stmt.get_written_variables()):
+            problems.append("map_expressions(%s) changed the read/write sets of '%s': %s/%s -> %s/%s" % (
+                label, stmt, sorted(stmt.get_read_variables()), sorted(stmt.get_written_variables()),
+                sorted(s2.get_read_variables()), sorted(s2.get_written_variables())))
 
     def on_statement(interp, st_, reads, writes, executed):
         info["executed"] = executed
